@@ -15,7 +15,7 @@ import (
 // ---------------------------------------------------------------------------
 // Calls
 
-func callInstrs(f *ssa.Function) []ssa.CallInstruction {
+func rawCallInstrs(f *ssa.Function) []ssa.CallInstruction {
 	var out []ssa.CallInstruction
 	for _, b := range f.Blocks {
 		for _, in := range b.Instrs {
@@ -23,6 +23,15 @@ func callInstrs(f *ssa.Function) []ssa.CallInstruction {
 				out = append(out, c)
 			}
 		}
+	}
+	return out
+}
+
+// callInstrs lists the call instructions of f and of the transparent helpers it calls (transparent.go).
+func callInstrs(f *ssa.Function) []ssa.CallInstruction {
+	out := rawCallInstrs(f)
+	for _, h := range transparentBodies(f) {
+		out = append(out, rawCallInstrs(h)...)
 	}
 	return out
 }
@@ -393,6 +402,16 @@ func exprD(v ssa.Value, d int, seen *ectx) string {
 	}
 	switch x := v.(type) {
 	case *ssa.Parameter:
+		if site := transparentSite(x.Parent()); site != nil && !seen.m[v] {
+			for i, p := range x.Parent().Params {
+				if p == x {
+					seen.m[v] = true
+					r := exprD(site.Common().Args[i], d+1, seen)
+					delete(seen.m, v)
+					return r
+				}
+			}
+		}
 		return canonParamName(x)
 	case *ssa.FreeVar:
 		return freeVarName(x)
@@ -450,8 +469,26 @@ func exprD(v ssa.Value, d int, seen *ectx) string {
 	case *ssa.Lookup:
 		return exprD(x.X, d+1, seen) + "[" + exprD(x.Index, d+1, seen) + "]"
 	case *ssa.Extract:
+		if call, ok := x.Tuple.(*ssa.Call); ok {
+			if h := staticCallee(call); h != nil && transparentSite(h) == call {
+				if r := singleResultExpr(h, x.Index); r != nil && !seen.m[v] {
+					seen.m[v] = true
+					s := exprD(r, d+1, seen)
+					delete(seen.m, v)
+					return s
+				}
+			}
+		}
 		return exprD(x.Tuple, d, seen) + "#" + fmt.Sprint(x.Index)
 	case *ssa.Call:
+		if h := staticCallee(x); h != nil && transparentSite(h) == x && h.Signature.Results().Len() == 1 {
+			if r := singleResultExpr(h, 0); r != nil && !seen.m[v] {
+				seen.m[v] = true
+				s := exprD(r, d+1, seen)
+				delete(seen.m, v)
+				return s
+			}
+		}
 		return callExpr(x, d, seen)
 	case *ssa.BinOp:
 		return "(" + exprD(x.X, d+1, seen) + " " + x.Op.String() + " " + exprD(x.Y, d+1, seen) + ")"
@@ -1019,6 +1056,21 @@ func reachFromEntry(f *ssa.Function, blocked map[Edge]bool, kill func(ssa.Instru
 
 // mustPrecede: on every path from entry to target, some instruction satisfying pred executes first.
 func mustPrecede(f *ssa.Function, target ssa.Instruction, pred func(ssa.Instruction) bool) (bool, []*ssa.BasicBlock) {
+	if target.Parent() != f {
+		chain := siteChain(f, target)
+		if chain == nil {
+			return false, nil
+		}
+		var last []*ssa.BasicBlock
+		for _, l := range chain {
+			r, p := reachFromEntry(l.fn, nil, pred, l.at)
+			if !r {
+				return true, nil
+			}
+			last = p
+		}
+		return false, last
+	}
 	r, p := reachFromEntry(f, nil, pred, target)
 	return !r, p
 }
@@ -1036,6 +1088,12 @@ func mustFollow(from ssa.Instruction, pred func(ssa.Instruction) bool, until fun
 		},
 	}
 	in, path := q.reach(from.Block(), instrIndex(from)+1)
+	// leaving a transparent helper is not leaving the operation: continue after its call site
+	if in != nil && isReturn(in) {
+		if site := transparentSite(from.Parent()); site != nil {
+			return mustFollow(site, pred, until)
+		}
+	}
 	return in == nil, in, path
 }
 
@@ -1142,6 +1200,22 @@ func (ge *guardEnv) guardedLocal(f *ssa.Function, target ssa.Instruction, g Guar
 // guardedLocalX: as guardedLocal; extra lists edges that cannot lie on a path of interest (e.g. the
 // edge on which the returned error is known non-nil, when only success returns are of interest).
 func (ge *guardEnv) guardedLocalX(f *ssa.Function, target ssa.Instruction, g Guard, depth int, extra map[Edge]bool) (bool, []*ssa.BasicBlock) {
+	if target.Parent() != f {
+		// the instruction lives in a transparent helper under f: the guard may hold at any level of the chain
+		chain := siteChain(f, target)
+		if chain == nil {
+			return false, nil
+		}
+		var lastPath []*ssa.BasicBlock
+		for _, l := range chain {
+			ok, p := ge.guardedLocalX(l.fn, l.at, g, depth, nil)
+			if ok {
+				return true, nil
+			}
+			lastPath = p
+		}
+		return false, lastPath
+	}
 	edges := ge.passEdges(f, g, depth)
 	if len(extra) > 0 {
 		m := map[Edge]bool{}
@@ -1296,6 +1370,10 @@ func (ge *guardEnv) guarded(f *ssa.Function, target ssa.Instruction, g Guard, li
 	}
 	why := fmt.Sprintf("in %s a path reaches the site without guard %q: %s", funcKey(f), g.Name, pathStr(ge.w, path))
 	if lift <= 0 {
+		if site := transparentSite(f); site != nil {
+			// an extracted helper: the guard may sit in front of its only call site
+			return ge.guarded(site.Parent(), site, g, 0)
+		}
 		return false, why
 	}
 	callers := ge.w.callersOf(f)
@@ -1572,7 +1650,7 @@ func (w *World) buildCallers() {
 		}
 	}
 	for _, f := range w.Funcs {
-		for _, c := range callInstrs(f) {
+		for _, c := range rawCallInstrs(f) {
 			if sc := staticCallee(c); sc != nil {
 				w.callers[sc] = append(w.callers[sc], c)
 				continue
@@ -1620,7 +1698,7 @@ func (w *World) callersOf(f *ssa.Function) []ssa.CallInstruction {
 	if f.Signature.Recv() != nil {
 		rt := f.Signature.Recv().Type()
 		for _, g := range w.Funcs {
-			for _, c := range callInstrs(g) {
+			for _, c := range rawCallInstrs(g) {
 				cc := c.Common()
 				if cc.IsInvoke() && cc.Method.Name() == f.Name() {
 					if it, ok := cc.Value.Type().Underlying().(*types.Interface); ok && types.Implements(rt, it) {
@@ -1660,6 +1738,14 @@ func isFieldOf(fa *ssa.FieldAddr, pkg, typ, field string) bool {
 }
 
 func (w *World) fieldStoresIn(f *ssa.Function, pkg, typ, field string) []FieldStore {
+	out := w.fieldStoresInRaw(f, pkg, typ, field)
+	for _, h := range transparentBodies(f) {
+		out = append(out, w.fieldStoresInRaw(h, pkg, typ, field)...)
+	}
+	return out
+}
+
+func (w *World) fieldStoresInRaw(f *ssa.Function, pkg, typ, field string) []FieldStore {
 	var out []FieldStore
 	for _, b := range f.Blocks {
 		for _, in := range b.Instrs {
